@@ -235,6 +235,17 @@ pub fn check_case(case: &Case, ev: &mut Ev) {
     if !big {
         fronts.push(MAP_FRONTS[(case.index / 7 + 4) % MAP_FRONTS.len()]);
     }
+    if case.family == "huge-delta" {
+        // only the default geometry and one wrapper: each build emits 17 million nodes
+        fronts.truncate(1);
+        fronts.push(Front::MapInsert);
+        for f in fronts.iter() {
+            one(case, *f, ev, false);
+        }
+        ev.count("cov:builds-with-4-byte-root-deltas(by construction)");
+        ev.count(&format!("family:{}", case.family));
+        return;
+    }
     for (i, f) in fronts.iter().enumerate() {
         one(case, *f, ev, i == 0 || i == 1);
     }
